@@ -33,144 +33,152 @@ def check(R):
     F = R.facts
     resumption = 'case-resumption' in (F.hdr.get('features') or '')
     # ---- a --------------------------------------------------------------------
-    R.callers_confined('P1', 'fabric::Fabrics::remove', {NOC + '::handle_remove_fabric', NOC + '::handle_add_noc', 'failsafe::FailSafe::expire'}, min_callers=2)
-    purges = [SESS_RM] + ([RESUME_RM] if resumption else [])
-    # RemoveFabric
-    rf = closure_in(R, NOC + '::handle_remove_fabric', ['Fabrics::remove'])
-    succ = R.call_guard(rf, 'fabric::Fabrics::remove')
-    for p in purges:
-        pb = call_bbs(rf, p)
-        bad = prims.always_followed_by(rf, [e[1] for e in succ], pb)
-        R.expect('P3', rf.fn, f'RemoveFabric: after fabrics.remove succeeded every path reaches {p.split("::")[-2]}::{p.split("::")[-1]}', not bad,
-                 'purge on every path', f'a path from the success edge returns without {p}', rf.where(pb[0]))
-        t = rf.calls(p)[0]
-        rm = rf.calls('fabric::Fabrics::remove')[0]
-        s1 = prims.sources(rf, t.d['a'][1])
-        s2 = prims.sources(rf, rm.d['a'][1])
-        common = {x for x in s1 & s2 if x[0] in ('upvar', 'arg', 'field')}
-        R.expect('P10', rf.fn, f'{p.split("::")[-2]} is purged for the index that was removed', bool(common), f'same index source {sorted(map(str, common))[:3]}',
-                 f'purge index {sorted(map(str, s1))[:4]} vs removed index {sorted(map(str, s2))[:4]}', rf.where(t.bb))
-    # fail-safe roll-back
-    ex = R.body('failsafe::FailSafe::expire')
-    rmv = named_local(ex, 'removed_fabric')
-    some_edges, _ = prims.enum_local_edges(F, ex, lambda pl: pl[0] in rmv and len(pl) == 1, 'core::option::Option', ['Some'])
-    for p in purges:
-        try:
-            pb = [t.bb for t in ex.calls(p)]
-        except AnchorLost:
-            pb = []
-        if not pb:
-            R.fail('P5', ex.fn, f'fail-safe roll-back purges {p.split("::")[-2]} of the dropped fabric',
-                   f'FailSafe::expire removes the fabric (Fabrics::remove) but never calls {p}: state bound to the rolled-back fabric index survives and is '
-                   f'inherited by the next fabric that receives the same index', f'{ex.file}:{ex.line}',
-                   key=f'P5|failsafe::FailSafe::expire|missing:{p}')
-            continue
-        bad = prims.always_followed_by(ex, [e[1] for e in some_edges], pb) if some_edges else ['no Some edge']
-        # the Some test may sit right at the purge: accept "purge is on every path from the point where removed_fabric is known Some"
-        R.expect('P3', ex.fn, f'roll-back: when a fabric was dropped every path reaches {p.split("::")[-2]}::{p.split("::")[-1]}', not bad,
-                 'purge on every path from removed_fabric == Some', f'a path returns without {p}', ex.where(pb[0]))
-        t = ex.calls(p)[0]
-        s1 = prims.sources(ex, t.d['a'][1])
-        R.expect('P10', ex.fn, f'{p.split("::")[-2]} is purged for the dropped fabric index', any(x[0] == 'field' and 'Some' in x[1] for x in s1) or mentions(s1, 'fab_idx') or any(l in rmv for l in _locals(ex, t.d['a'][1])),
-                 'index <= removed_fabric', f'{sorted(map(str, s1))[:5]}', ex.where(t.bb))
-    exc = closure_in(R, 'failsafe::FailSafe::expire', ['Fabrics::remove'])
-    rb = exc.calls('fabric::Fabrics::remove')[0]
-    al = exc.calls('fabric::Fabrics::add_load')
-    R.floor('add_load in roll-back', len(al), 1)
-    R.cut('P2', exc, 'reload the persisted copy', [t.bb for t in al], 'fabrics.remove ok', lambda: R.call_guard(exc, 'fabric::Fabrics::remove'))
-    # AddNOC scope guard: the fabric being undone was created in the same closure
-    an = bodies_of(F, NOC + '::handle_add_noc')
-    has_add = any('failsafe::FailSafe::add_noc' in b.calls_summary for b in an)
-    R.expect('P5', NOC + '::handle_add_noc', 'the AddNOC undo removes only a fabric created by the same command', has_add, 'FailSafe::add_noc in the same handler', 'Fabrics::remove in handle_add_noc without add_noc')
-    # Sessions::remove_for_fabric visits every session: the scan restarts after each swap_remove
-    srm = R.body(SESS_RM)
-    swaps = [t.bb for t in srm.calls() if t.d.get('f', '').endswith('::swap_remove')]
-    R.floor('swap_remove in Sessions::remove_for_fabric', len(swaps), 1)
-    pos = [t.bb for t in srm.calls() if t.d.get('f', '').endswith('Iterator::position')]
-    R.expect('P3', srm.fn, 'after each swap_remove the search restarts with a fresh position() scan', bool(pos) and all(
-        set(pos) & prims.reach(srm, srm.succ[s]) and not (set(srm.ret_blocks()) & prims.reach(srm, srm.succ[s], cut_blocks=set(pos))) for s in swaps),
-        'while let Some(i) = position(..) { swap_remove(i) }', 'a swap_remove can be followed by return / further removals without re-scanning: the element moved into the freed slot is skipped')
-    pc = [b for b in F.nested(srm.fn) if b.kind == 'closure']
-    okp = False
-    for b in pc:
-        cs = prims.compare_sites(b, ops=('Eq',))
-        if any(SESSIONS.replace('Sessions', 'Session') + '::get_local_fabric_idx' in src_calls(prims.sources(b, c[3]) | prims.sources(b, c[4])) for c in cs):
-            okp = True
-    R.expect('P9', srm.fn, 'the removal predicate compares the session\'s fabric index', okp, 'sess.get_local_fabric_idx() == fabric_idx', 'predicate does not compare the fabric index')
-    if resumption:
-        rr = R.body(RESUME_RM)
-        R.expect('P4', rr.fn, 'resumption purge drops every record of the fabric (retain over all records)', any(c.endswith('::retain') for c in rr.calls_summary), 'records.retain(..)', 'no retain')
+    with R.clause('a'):
+        pass
+        R.callers_confined('P1', 'fabric::Fabrics::remove', {NOC + '::handle_remove_fabric', NOC + '::handle_add_noc', 'failsafe::FailSafe::expire'}, min_callers=2)
+        purges = [SESS_RM] + ([RESUME_RM] if resumption else [])
+        # RemoveFabric
+        rf = closure_in(R, NOC + '::handle_remove_fabric', ['Fabrics::remove'])
+        succ = R.call_guard(rf, 'fabric::Fabrics::remove')
+        for p in purges:
+            pb = call_bbs(rf, p)
+            bad = prims.always_followed_by(rf, [e[1] for e in succ], pb)
+            R.expect('P3', rf.fn, f'RemoveFabric: after fabrics.remove succeeded every path reaches {p.split("::")[-2]}::{p.split("::")[-1]}', not bad,
+                     'purge on every path', f'a path from the success edge returns without {p}', rf.where(pb[0]))
+            t = rf.calls(p)[0]
+            rm = rf.calls('fabric::Fabrics::remove')[0]
+            s1 = prims.sources(rf, t.d['a'][1])
+            s2 = prims.sources(rf, rm.d['a'][1])
+            common = {x for x in s1 & s2 if x[0] in ('upvar', 'arg', 'field')}
+            R.expect('P10', rf.fn, f'{p.split("::")[-2]} is purged for the index that was removed', bool(common), f'same index source {sorted(map(str, common))[:3]}',
+                     f'purge index {sorted(map(str, s1))[:4]} vs removed index {sorted(map(str, s2))[:4]}', rf.where(t.bb))
+        # fail-safe roll-back
+        ex = R.body('failsafe::FailSafe::expire')
+        rmv = named_local(ex, 'removed_fabric')
+        some_edges, _ = prims.enum_local_edges(F, ex, lambda pl: pl[0] in rmv and len(pl) == 1, 'core::option::Option', ['Some'])
+        for p in purges:
+            try:
+                pb = [t.bb for t in ex.calls(p)]
+            except AnchorLost:
+                pb = []
+            if not pb:
+                R.fail('P5', ex.fn, f'fail-safe roll-back purges {p.split("::")[-2]} of the dropped fabric',
+                       f'FailSafe::expire removes the fabric (Fabrics::remove) but never calls {p}: state bound to the rolled-back fabric index survives and is '
+                       f'inherited by the next fabric that receives the same index', f'{ex.file}:{ex.line}',
+                       key=f'P5|failsafe::FailSafe::expire|missing:{p}')
+                continue
+            bad = prims.always_followed_by(ex, [e[1] for e in some_edges], pb) if some_edges else ['no Some edge']
+            # the Some test may sit right at the purge: accept "purge is on every path from the point where removed_fabric is known Some"
+            R.expect('P3', ex.fn, f'roll-back: when a fabric was dropped every path reaches {p.split("::")[-2]}::{p.split("::")[-1]}', not bad,
+                     'purge on every path from removed_fabric == Some', f'a path returns without {p}', ex.where(pb[0]))
+            t = ex.calls(p)[0]
+            s1 = prims.sources(ex, t.d['a'][1])
+            R.expect('P10', ex.fn, f'{p.split("::")[-2]} is purged for the dropped fabric index', any(x[0] == 'field' and 'Some' in x[1] for x in s1) or mentions(s1, 'fab_idx') or any(l in rmv for l in _locals(ex, t.d['a'][1])),
+                     'index <= removed_fabric', f'{sorted(map(str, s1))[:5]}', ex.where(t.bb))
+        exc = closure_in(R, 'failsafe::FailSafe::expire', ['Fabrics::remove'])
+        rb = exc.calls('fabric::Fabrics::remove')[0]
+        al = exc.calls('fabric::Fabrics::add_load')
+        R.floor('add_load in roll-back', len(al), 1)
+        R.cut('P2', exc, 'reload the persisted copy', [t.bb for t in al], 'fabrics.remove ok', lambda: R.call_guard(exc, 'fabric::Fabrics::remove'))
+        # AddNOC scope guard: the fabric being undone was created in the same closure
+        an = bodies_of(F, NOC + '::handle_add_noc')
+        has_add = any('failsafe::FailSafe::add_noc' in b.calls_summary for b in an)
+        R.expect('P5', NOC + '::handle_add_noc', 'the AddNOC undo removes only a fabric created by the same command', has_add, 'FailSafe::add_noc in the same handler', 'Fabrics::remove in handle_add_noc without add_noc')
+        # Sessions::remove_for_fabric visits every session: the scan restarts after each swap_remove
+        srm = R.body(SESS_RM)
+        swaps = [t.bb for t in srm.calls() if t.d.get('f', '').endswith('::swap_remove')]
+        R.floor('swap_remove in Sessions::remove_for_fabric', len(swaps), 1)
+        pos = [t.bb for t in srm.calls() if t.d.get('f', '').endswith('Iterator::position')]
+        R.expect('P3', srm.fn, 'after each swap_remove the search restarts with a fresh position() scan', bool(pos) and all(
+            set(pos) & prims.reach(srm, srm.succ[s]) and not (set(srm.ret_blocks()) & prims.reach(srm, srm.succ[s], cut_blocks=set(pos))) for s in swaps),
+            'while let Some(i) = position(..) { swap_remove(i) }', 'a swap_remove can be followed by return / further removals without re-scanning: the element moved into the freed slot is skipped')
+        pc = [b for b in F.nested(srm.fn) if b.kind == 'closure']
+        okp = False
+        for b in pc:
+            cs = prims.compare_sites(b, ops=('Eq',))
+            if any(SESSIONS.replace('Sessions', 'Session') + '::get_local_fabric_idx' in src_calls(prims.sources(b, c[3]) | prims.sources(b, c[4])) for c in cs):
+                okp = True
+        R.expect('P9', srm.fn, 'the removal predicate compares the session\'s fabric index', okp, 'sess.get_local_fabric_idx() == fabric_idx', 'predicate does not compare the fabric index')
+        if resumption:
+            rr = R.body(RESUME_RM)
+            R.expect('P4', rr.fn, 'resumption purge drops every record of the fabric (retain over all records)', any(c.endswith('::retain') for c in rr.calls_summary), 'records.retain(..)', 'no retain')
 
     # ---- b --------------------------------------------------------------------
-    owners = set()
-    for c in F.callers_of('failsafe::FailSafe::expire') | F.callers_of('failsafe::FailSafe::check_failsafe_timeout'):
-        o = F.owner_fn(c)
-        if o.startswith('failsafe::'):
-            continue
-        owners.add(o)
-    R.floor('external callers of the fail-safe expiry', len(owners), 3)
-    for o in sorted(owners):
-        bs = bodies_of(F, o)
-        notif = any(any(c.endswith('notify_fabric_removed') for c in b.calls_summary) for b in bs)
-        R.expect('P3', o, 'expiry caller broadcasts notify_fabric_removed', notif, 'notify_fabric_removed called', f'{o} expires the fail-safe but never broadcasts the fabric removal')
-        for b in bs:
-            for callee in ('failsafe::FailSafe::expire', 'failsafe::FailSafe::check_failsafe_timeout'):
-                if callee in b.calls_summary:
-                    from common import result_used
-                    result_used(R, 'P8', b, (callee,))
-    rfo = bodies_of(F, NOC + '::handle_remove_fabric')
-    R.expect('P3', NOC + '::handle_remove_fabric', 'RemoveFabric broadcasts notify_fabric_removed', any(any(c.endswith('notify_fabric_removed') for c in b.calls_summary) for b in rfo), 'ok', 'no broadcast')
+    with R.clause('b'):
+        pass
+        owners = set()
+        for c in F.callers_of('failsafe::FailSafe::expire') | F.callers_of('failsafe::FailSafe::check_failsafe_timeout'):
+            o = F.owner_fn(c)
+            if o.startswith('failsafe::'):
+                continue
+            owners.add(o)
+        R.floor('external callers of the fail-safe expiry', len(owners), 3)
+        for o in sorted(owners):
+            bs = bodies_of(F, o)
+            notif = any(any(c.endswith('notify_fabric_removed') for c in b.calls_summary) for b in bs)
+            R.expect('P3', o, 'expiry caller broadcasts notify_fabric_removed', notif, 'notify_fabric_removed called', f'{o} expires the fail-safe but never broadcasts the fabric removal')
+            for b in bs:
+                for callee in ('failsafe::FailSafe::expire', 'failsafe::FailSafe::check_failsafe_timeout'):
+                    if callee in b.calls_summary:
+                        from common import result_used
+                        result_used(R, 'P8', b, (callee,))
+        rfo = bodies_of(F, NOC + '::handle_remove_fabric')
+        R.expect('P3', NOC + '::handle_remove_fabric', 'RemoveFabric broadcasts notify_fabric_removed', any(any(c.endswith('notify_fabric_removed') for c in b.calls_summary) for b in rfo), 'ok', 'no broadcast')
 
     # ---- c --------------------------------------------------------------------
-    SESS = 'transport::session::Session'
-    pr = R.body(SESS + '::post_recv')
-    te, fe = field_bool_edges(pr, 'expired:' + SESS)
-    R.cut('P2', pr, 'open a new exchange (add_exch)', call_bbs(pr, SESS + '::add_exch'), 'self.expired == false', fe)
-    for fn, fld in ((SESSIONS + '::get_for_node', 'expired'), (SESSIONS + '::get_pase_for_addr', 'expired')):
-        bs = bodies_of(F, fn)
-        R.floor('bodies of ' + fn, len(bs), 1)
-        ok = any(prims.field_influences_result(b, 'expired:' + SESS)[0] for b in bs)
-        R.expect('P9', fn, 'outbound session lookup filters on !expired', ok, 'reads Session.expired', 'does not read Session.expired')
-    ini = [b for b in F.bodies.values() if b.focus and b.fn.startswith('transport::') and SESS + '::is_expired' in b.calls_summary]
-    R.expect('P9', 'transport::Transport', 'initiating on an existing session filters on is_expired()', len(ini) >= 1, f'{[b.fn for b in ini]}', 'Session::is_expired has no caller in transport')
-    R.writers_confined('P1', 'expired:' + SESS, {SESS + '::new', SESS + '::init', SESS + '::pre_send', SESSIONS + '::remove_for_fabric', SESSIONS + '::remove_pase',
-                       SESS + '::post_send', SESS + '::mark_expired'}, min_sites=2)
+    with R.clause('c'):
+        pass
+        SESS = 'transport::session::Session'
+        pr = R.body(SESS + '::post_recv')
+        te, fe = field_bool_edges(pr, 'expired:' + SESS)
+        R.cut('P2', pr, 'open a new exchange (add_exch)', call_bbs(pr, SESS + '::add_exch'), 'self.expired == false', fe)
+        for fn, fld in ((SESSIONS + '::get_for_node', 'expired'), (SESSIONS + '::get_pase_for_addr', 'expired')):
+            bs = bodies_of(F, fn)
+            R.floor('bodies of ' + fn, len(bs), 1)
+            ok = any(prims.field_influences_result(b, 'expired:' + SESS)[0] for b in bs)
+            R.expect('P9', fn, 'outbound session lookup filters on !expired', ok, 'reads Session.expired', 'does not read Session.expired')
+        ini = [b for b in F.bodies.values() if b.focus and b.fn.startswith('transport::') and SESS + '::is_expired' in b.calls_summary]
+        R.expect('P9', 'transport::Transport', 'initiating on an existing session filters on is_expired()', len(ini) >= 1, f'{[b.fn for b in ini]}', 'Session::is_expired has no caller in transport')
+        R.writers_confined('P1', 'expired:' + SESS, {SESS + '::new', SESS + '::init', SESS + '::pre_send', SESSIONS + '::remove_for_fabric', SESSIONS + '::remove_pase',
+                           SESS + '::post_send', SESS + '::mark_expired'}, min_sites=2)
 
     # ---- d --------------------------------------------------------------------
-    ps = 'im::InteractionModel::process_subscriptions'
-    pred = closure_in(R, ps, ['Fabrics::get'])
-    rd = prims.result_defs(pred)
-    somes = [bb for bb, k, p in rd if k == 'agg' and p.get('var') == 'Some']
-    R.floor('Some(reason) results of the fabric-existence predicate', len(somes), 1)
-    none_edges = lambda: _none_edges(R, pred, 'fabric::Fabrics::get')
-    # on the None edge a Some(reason) result is produced on every path
-    ne = none_edges()
-    bad = []
-    for (frm, to) in ne:
-        r = prims.reach(pred, (to,), cut_blocks=set(somes))
-        if set(pred.ret_blocks()) & r:
-            bad.append(pred.where(frm))
-    R.expect('P3', pred.fn, 'fabrics.get(sub.fab_idx) == None always yields a removal verdict', bool(ne) and not bad, 'None edge -> Some("fabric removed")',
-             f'None edge can return without a verdict: {bad}')
-    t = pred.calls('fabric::Fabrics::get')[0]
-    s = prims.sources(pred, t.d['a'][1], through={'im::subscriptions::Subscription::ids'})
-    R.expect('P10', pred.fn, 'the fabric looked up is the subscription\'s own', mentions(s, 'fab_idx'), 'fabrics.get(sub.ids().fab_idx)', f'{sorted(map(str, s))[:5]}')
-    # the purge is not conditional on a wake-up reason: the removal call is reached on every iteration of the reporter loop
-    co = async_body(R, ps)
-    outer = closure_in(R, ps, ['Subscription::is_expired'])
-    sites = closure_arg_sites(co, outer.fn)
-    R.floor('subscriptions.remove(predicate) site', len(sites), 1)
-    isites = closure_arg_sites(outer, pred.fn)
-    R.floor('with_state(fabric-existence predicate) site', len(isites), 1)
-    exp = outer.calls('im::subscriptions::Subscription::is_expired')
-    R.floor('is_expired in the removal predicate', len(exp), 1)
-    notexp = prims.track_result(F, outer, exp[0]).failure
-    badp = prims.always_followed_by(outer, [e[1] for e in notexp], [t.bb for t in isites])
-    R.expect('P3', outer.fn, 'every non-expired subscription is checked against the fabric table on every sweep', bool(notexp) and not badp,
-             'is_expired == false -> with_state(fabrics.get(..))', 'a path returns a verdict for a live subscription without consulting the fabric table (e.g. only on some wake-up reasons)')
-    cond = _conditional_on(co, sites[0].bb)
-    R.expect('P3', co.fn, 'the removal sweep runs on every reporter pass', not cond, 'unconditional within the loop',
-             f'the sweep at {co.where(sites[0].bb)} is only reached under condition(s) at {cond}')
+    with R.clause('d'):
+        pass
+        ps = 'im::InteractionModel::process_subscriptions'
+        pred = closure_in(R, ps, ['Fabrics::get'])
+        rd = prims.result_defs(pred)
+        somes = [bb for bb, k, p in rd if k == 'agg' and p.get('var') == 'Some']
+        R.floor('Some(reason) results of the fabric-existence predicate', len(somes), 1)
+        none_edges = lambda: _none_edges(R, pred, 'fabric::Fabrics::get')
+        # on the None edge a Some(reason) result is produced on every path
+        ne = none_edges()
+        bad = []
+        for (frm, to) in ne:
+            r = prims.reach(pred, (to,), cut_blocks=set(somes))
+            if set(pred.ret_blocks()) & r:
+                bad.append(pred.where(frm))
+        R.expect('P3', pred.fn, 'fabrics.get(sub.fab_idx) == None always yields a removal verdict', bool(ne) and not bad, 'None edge -> Some("fabric removed")',
+                 f'None edge can return without a verdict: {bad}')
+        t = pred.calls('fabric::Fabrics::get')[0]
+        s = prims.sources(pred, t.d['a'][1], through={'im::subscriptions::Subscription::ids'})
+        R.expect('P10', pred.fn, 'the fabric looked up is the subscription\'s own', mentions(s, 'fab_idx'), 'fabrics.get(sub.ids().fab_idx)', f'{sorted(map(str, s))[:5]}')
+        # the purge is not conditional on a wake-up reason: the removal call is reached on every iteration of the reporter loop
+        co = async_body(R, ps)
+        outer = closure_in(R, ps, ['Subscription::is_expired'])
+        sites = closure_arg_sites(co, outer.fn)
+        R.floor('subscriptions.remove(predicate) site', len(sites), 1)
+        isites = closure_arg_sites(outer, pred.fn)
+        R.floor('with_state(fabric-existence predicate) site', len(isites), 1)
+        exp = outer.calls('im::subscriptions::Subscription::is_expired')
+        R.floor('is_expired in the removal predicate', len(exp), 1)
+        notexp = prims.track_result(F, outer, exp[0]).failure
+        badp = prims.always_followed_by(outer, [e[1] for e in notexp], [t.bb for t in isites])
+        R.expect('P3', outer.fn, 'every non-expired subscription is checked against the fabric table on every sweep', bool(notexp) and not badp,
+                 'is_expired == false -> with_state(fabrics.get(..))', 'a path returns a verdict for a live subscription without consulting the fabric table (e.g. only on some wake-up reasons)')
+        cond = _conditional_on(co, sites[0].bb)
+        R.expect('P3', co.fn, 'the removal sweep runs on every reporter pass', not cond, 'unconditional within the loop',
+                 f'the sweep at {co.where(sites[0].bb)} is only reached under condition(s) at {cond}')
 
 
 def _locals(body, operand):
